@@ -71,3 +71,6 @@ def run(ctx):
     from . import lib_py
     lib_py.facade_guard(ctx, py, "tables", "BaseTable.__getitem__", "index", "ll_table.get_row", upper="len(self)")
     lib_schema.update_row(ctx, P, load_schemas(P))
+    from . import lib_kind5
+    lib_kind5.peer_state(ctx, ctx.program())
+    lib_kind5.memset_args(ctx, ctx.program())
